@@ -235,6 +235,7 @@ type vfOpts struct {
 }
 
 type vfWorld struct {
+	loaded bool // built by vfLoadedWorld from a configuration file
 	opts    vfOpts
 	state   *RuntimeState
 	dir     string
@@ -452,6 +453,26 @@ func (w *vfWorld) buildMux() {
 	if c, err := x509.ParseCertificate(w.state.selfRoleCaCertDer); err == nil {
 		w.pool.AddCert(c)
 	}
+}
+
+// DoAdvancing serves a request that may wait on the virtual clock (a storage
+// read timing out): whenever the handler has made no progress for 40 ms of real
+// time and a virtual timer is pending, virtual time moves past it.
+func (w *vfWorld) DoAdvancing(req *http.Request) *vfResp {
+	done := make(chan *vfResp, 1)
+	go func() { done <- w.Do(req) }()
+	for i := 0; i < 400; i++ {
+		select {
+		case r := <-done:
+			return r
+		case <-time.After(40 * time.Millisecond):
+		}
+		if vclock.Pending() > 0 {
+			vclock.Advance(3 * time.Second)
+		}
+	}
+	vfeng.HarnessFail("request %s %s did not finish although virtual time was advanced", req.Method, req.URL.Path)
+	return nil
 }
 
 func (w *vfWorld) recoverWrap(h http.Handler) http.Handler {
